@@ -671,6 +671,14 @@ class Interp:
             if not (isinstance(p, Ptr) and isinstance(q, Ptr) and p.key() == q.key() and p.idx is not None and q.idx is not None):
                 raise EncodingError("offset_from on unrelated pointers %s %s" % (sx(p), sx(q)))
             used("ptr::offset_from"); return ("val", p.idx - q.idx)
+        if re.search(r"(^|::)drop_in_place(::<.*>)?$", callee, re.S) or c.endswith("drop_in_place"):
+            p = a(0)
+            if isinstance(p, LRef): return self.drop_value(st, self.project(st.frames[p.depth].loc[p.name], p.proj))
+            d = self.memdecl(p, "ptr::drop_in_place")
+            # the payload's destructor, modelled as a visible WRITE of a 'destroyed' marker into the slot: a payload that is destroyed
+            # while (or after) somebody else was handed the slot shows up as a marker where an event was expected
+            used("ptr::drop_in_place of a pooled payload -> visible store of a DESTROYED marker (payload type with a destructor)")
+            return ("vis", ("pstore", p.key(), p.idx, BV(d["sort"].size(), 0xDEADD00D)))
         if re.search(r"(^|::)ptr::write$", c) or c in ("std::ptr::write", "core::ptr::write"):
             p = a(0)
             if isinstance(p, LRef): self.write_local(st, p.depth, p.name, p.proj, a(1)); return ("val", UNIT)
